@@ -1,15 +1,18 @@
-//! avh — the execution/recording half of the verification machinery.
+//! Shared library of the verification harness: bridge encodings, generators, argument parsing.
 //!
 //! The harness never decides pass/fail.  It executes scenarios against the real crate and
 //! records what happened as ndjson; the TLA+ trace specifications under /verif/spec judge it.
+//! One binary per family of properties lives under src/bin/ (cargo discovers them).
 
-mod datum;
-mod generate;
-mod term;
+pub mod datum;
+pub mod generate;
+pub mod term;
 
 use std::collections::HashMap;
+use std::io::{BufRead, Write};
 
 pub struct Args {
+    pub cmd: String,
     pub pos: Vec<String>,
     pub kv: HashMap<String, String>,
 }
@@ -31,10 +34,11 @@ impl Args {
     }
 }
 
-fn parse_args() -> (String, Args) {
+/// `<cmd> [--key value | --flag | positional]...`
+pub fn parse_args() -> Args {
     let mut it = std::env::args().skip(1);
     let cmd = it.next().unwrap_or_default();
-    let mut a = Args { pos: vec![], kv: HashMap::new() };
+    let mut a = Args { cmd, pos: vec![], kv: HashMap::new() };
     let rest: Vec<String> = it.collect();
     let mut i = 0;
     while i < rest.len() {
@@ -51,7 +55,7 @@ fn parse_args() -> (String, Args) {
             i += 1;
         }
     }
-    (cmd, a)
+    a
 }
 
 /// Run `f` catching panics; the panic message is data.
@@ -67,17 +71,23 @@ pub fn guarded<T, F: FnOnce() -> T + std::panic::UnwindSafe>(f: F) -> Result<T, 
     })
 }
 
-fn main() {
-    // panics of the code under test are data; keep stderr quiet
+/// panics of the code under test are data; keep stderr quiet
+pub fn quiet_panics() {
     std::panic::set_hook(Box::new(|_| {}));
-    let (cmd, args) = parse_args();
-    let rc = match cmd.as_str() {
-        "datum-gen" => datum::cmd_gen(&args),
-        "datum-run" => datum::cmd_run(&args),
-        _ => {
-            eprintln!("unknown command {cmd:?}");
-            2
-        }
-    };
-    std::process::exit(rc);
+}
+
+pub fn open_out(path: &str) -> Box<dyn Write> {
+    if path == "-" {
+        Box::new(std::io::BufWriter::new(std::io::stdout()))
+    } else {
+        Box::new(std::io::BufWriter::new(std::fs::File::create(path).expect("create out")))
+    }
+}
+
+pub fn read_lines(path: &str) -> Vec<String> {
+    let f = std::fs::File::open(path).unwrap_or_else(|e| {
+        eprintln!("cannot open {path}: {e}");
+        std::process::exit(2)
+    });
+    std::io::BufReader::new(f).lines().map(|l| l.unwrap()).filter(|l| !l.trim().is_empty()).collect()
 }
